@@ -331,6 +331,7 @@ class AioFE(_Proc):
         self.n = 0
         self.addr = None
         self.wrap = None  # e.g. ['strace', ...]
+        self.cwd = None
         if start:
             self.start()
 
@@ -370,7 +371,7 @@ class AioFE(_Proc):
             if self.wrap:
                 cmd = self.wrap + cmd
             logf = open(self.logpath, "ab")
-            self.proc = subprocess.Popen(cmd, stdout=logf, stderr=subprocess.STDOUT, env=common.worker_env(extra), cwd=self.base, start_new_session=True)
+            self.proc = subprocess.Popen(cmd, stdout=logf, stderr=subprocess.STDOUT, env=common.worker_env(extra), cwd=self.cwd or self.base, start_new_session=True)
             logf.close()
             if self._wait_ready():
                 return
